@@ -10,6 +10,9 @@ import (
 )
 
 // Main is the entry point shared by the check binaries.
+// Probes are small programs inside the check binary, run by checks as child processes.
+var Probes = map[string]func(args []string){}
+
 func Main() {
 	prop := flag.String("property", "", "property id")
 	tier := flag.String("tier", "quick", "quick|thorough")
@@ -22,8 +25,19 @@ func Main() {
 	replay := flag.String("replay", "", "replay file written by a violation")
 	workers := flag.Int("workers", 0, "number of worker processes")
 	list := flag.Bool("list", false, "list properties")
+	probe := flag.String("probe", "", "run the named probe with the remaining arguments (internal)")
 	flag.Parse()
 
+	if *probe != "" {
+		// a child process of a check: one call of the library in a process of its own (e.g. under a system call injector)
+		f := Probes[*probe]
+		if f == nil {
+			fmt.Println("unknown probe", *probe)
+			os.Exit(2)
+		}
+		f(flag.Args())
+		return
+	}
 	if *list {
 		for _, id := range IDs() {
 			fmt.Println(id)
